@@ -58,9 +58,10 @@ pub fn live_bytes() -> isize {
 /// is the counting allocator installed in this binary?
 pub fn installed() -> bool {
     let before = live_bytes();
-    let v: Vec<u8> = Vec::with_capacity(1 << 16);
+    // (black_box: an optimising build would otherwise elide the unused allocation)
+    let v: Vec<u8> = std::hint::black_box(Vec::with_capacity(std::hint::black_box(1 << 16)));
     let during = live_bytes();
-    drop(v);
+    drop(std::hint::black_box(v));
     during - before >= (1 << 16)
 }
 
